@@ -83,6 +83,32 @@ def init(w, r, m8):
     w.claim('get_refs_descriptor(own mask) == d1', k4 == 'ok' and w.eq_seq(w.bytes_seq(d1_), E.uint(SC.d1(r, False, 0), 8)))
 
 
+@obligation('C01.padded_twin', 'C01', cases=[{'r': r, 'm8': m, 'first': f} for r in (0, 1) for m in (1, 4, 7) for f in ('unaligned', 'aligned')],
+            fuc=INIT, assumes=['T3: SHA-256 as an uninterpreted deterministic function (equal inputs <=> same term)'],
+            descr='history independence of hashing: two DIFFERENT cells whose tag-padded data bytes coincide - A with 8q+m8 data bits and B '
+                  'whose 8(q+1) data bits are exactly pad(A) - are created one after the other (both orders), with the same children: each '
+                  'reports the specification hash of its OWN bit string (they differ in d2), and the two are unequal (a digest remembered '
+                  'under the padded bytes alone would hand one cell the hash of the other)')
+def padded_twin(w, r, m8, first):
+    from pytoniq_core.boc.cell import Cell
+    from pytoniq_core.boc.tvm_bitarray import TvmBitarray
+    b, bits = _data(w, m8)
+    w.assume(b + 8 - m8 <= 1023)          # the padded twin must itself fit a cell
+    padded = SC.pad(bits, m8)
+    kids, obs = _kids(w, r)
+    for o in obs:
+        w.assume(o.depth_at(0) <= 1000)
+    mk = {'unaligned': lambda: Cell(w.mk_bitarray(TvmBitarray, bits, 1023), list(kids)),
+          'aligned': lambda: Cell(w.mk_bitarray(TvmBitarray, padded, 1023), list(kids))}
+    second = 'aligned' if first == 'unaligned' else 'unaligned'
+    cells = {first: mk[first]()}
+    cells[second] = mk[second]()
+    _claim_cell(w, cells['unaligned'], bits, b, m8, kids, obs, 'unaligned cell: ')
+    _claim_cell(w, cells['aligned'], padded, b - m8 + 8, 0, kids, obs, 'aligned cell: ')
+    if not w.symbolic:      # with the real SHA-256 (symbolically the digest is uninterpreted: distinct inputs may collide)
+        w.claim('the two cells are different values', cells['aligned'].hash != cells['unaligned'].hash)
+
+
 @obligation('C01.eq_hash', 'C01', fuc=[C + '__eq__', C + '__hash__', C + 'hash'],
             descr='two cells (abstract: any content) compare equal exactly when their hashes are equal, and equal hashes '
                   'give equal __hash__ values (so they collide as dictionary keys exactly then)')
